@@ -354,6 +354,57 @@ static long run_one(int kind, fn_t *f, int v, int n, int depth, long fail_k, boo
     return allocs;
 }
 
+/* ---- contention scenario: the waiter exhausts its lock-wait budget (Q_MUTEX_ENTER's forced-unlock fallback runs
+ * several times) while the holder sits inside its own lock()...unlock(); when the holder's unlock() returns its depth
+ * must be back to 0 and the waiter's operation must then complete within a bounded number of further attempts ------- */
+static volatile int waiter_done;
+static void *waiter_main(void *arg) {
+    ctx_t *c = arg;
+    FTAB[c->kind][0].call(c, 0);          /* the first mutating operation of the kind (put / addfirst / push / add / write) */
+    waiter_done = 1;
+    return NULL;
+}
+static void contention(long caseno) {
+    for (int kind = 0; kind < NKINDS; kind++) for (int nest = 1; nest <= 2; nest++) {
+        if (kind == K_LOG) continue;                 /* no public lock() */
+        ctx_t c;
+        if (!make(&c, kind, 3)) exit(2);
+        vf_case_begin(caseno, "contention: %s holder nests lock() %d time(s), waiter spins past the lock-wait budget, then unlock()", KNAME[kind], nest);
+        for (int d = 0; d < nest; d++) lock_it(&c);
+        long busy0 = vf_trylock_busy;
+        waiter_done = 0; vf_spin_abort = 0;
+        pthread_t t; pthread_create(&t, NULL, waiter_main, &c);
+        long spins = 0;
+        while (vf_trylock_busy - busy0 < 12000 && spins++ < 200000000L) sched_yield();     /* > 2 x MAX_MUTEX_LOCK_WAIT failed attempts */
+        vf_log("waiter failed %ld trylocks while the holder kept the lock", vf_trylock_busy - busy0);
+        bool reached = vf_trylock_busy - busy0 >= 12000;
+        for (int d = 0; d < nest; d++) unlock_it(&c);
+        int depth = vf_lock_depth(c.mutex);
+        vf_count("evaluations", 1); vf_count("contention_scenarios", 1);
+        vf_name("functions_covered", kind == K_QUEUE || kind == K_STACK || kind == K_GROW ? "qlist.lock" : (kind == K_TREE ? "qtreetbl.lock" : kind == K_HASH ? "qhashtbl.lock" : kind == K_LISTTBL ? "qlisttbl.lock" : kind == K_LIST ? "qlist.lock" : "qvector.lock"));
+        vf_distinct("distinct", 0x51000000ULL + (uint64_t)(kind * 4 + nest));
+        if (!reached) { vf_count("contention_not_reached", 1); }
+        if (depth != 0) {
+            char key[120]; snprintf(key, sizeof key, "lock-depth:%s.unlock:after-contention", KNAME[kind]);
+            vf_viol("C14", key, "%s: the holder's unlock() returned with lock depth %d after a waiter had exhausted its lock-wait budget", KNAME[kind], depth);
+            vf_spin_abort = 1; pthread_join(t, NULL); vf_spin_abort = 0;
+            vf_lock_unregister_all();
+            continue;                                  /* the mutex is still locked: the container can not be destroyed */
+        }
+        long busy1 = vf_trylock_busy; spins = 0;
+        while (!waiter_done && vf_trylock_busy - busy1 < 30000 && spins++ < 2000000000L) sched_yield();
+        if (!waiter_done) {
+            char key[120]; snprintf(key, sizeof key, "lock-held:%s.unlock:after-contention", KNAME[kind]);
+            vf_viol("C14", key, "%s: after the holder's unlock() the waiter failed %ld more trylocks and its operation never completed", KNAME[kind], vf_trylock_busy - busy1);
+            vf_spin_abort = 1; pthread_join(t, NULL); vf_spin_abort = 0; vf_lock_unregister_all(); continue;
+        }
+        pthread_join(t, NULL);
+        vf_count("calls_lock_balanced", 1);
+        destroy(&c);
+    }
+    vf_sample("contention: holder inside lock()..unlock() (nesting 1 and 2) while a waiter fails > 12000 trylocks (forced-unlock fallback of the lock macro), for tree/hash/listtbl/list/queue/stack/grow/vector");
+}
+
 int main(int argc, char **argv) {
     vf_init(argc, argv, "h_lock");
     if (strcmp(VF.prop, "C14")) { fprintf(stderr, "h_lock: unsupported property %s\n", VF.prop); return 2; }
@@ -378,5 +429,6 @@ int main(int argc, char **argv) {
             }
             if (caseno % 16 == 0) vf_sample("%s.%s: variants executed from states n=0,1,2,7,40 at entry depth 0 and 1, then with the k-th allocation failing for every k", KNAME[kind], f->name);
         }
+    if (vf_mine(caseno)) contention(caseno);
     return vf_finish() ? 1 : 0;
 }
